@@ -22,7 +22,7 @@ func init() {
 	register(&Rule{ID: "R-SCAN", Doc: "the scanner accepts exactly RFC 8259 (ws value ws, nesting bound 10000): every state function reachable from reset's start state is evaluated abstractly for each of 7 stack contexts (depth 0/1/≥2 × top) into a total, deterministic map byte → (next state, stack action, error?); the product of that machine with an independent reference automaton is explored with synchronised stacks, and at every reachable product configuration both sides agree on accept/reject of each of the 256 bytes, on push/pop, and on acceptance at end of input (eof's trailing-space trick included); a transition is an error iff it returns scanError; the nesting test is `len <= 10000`",
 		Run: ruleScan, Min: map[string]int{"codec": 100}})
 	register(&Rule{ID: "R-DRIVER", Doc: "every driver of the scanner (checkValid, compact, Indent — found as the functions that call scan.step in a loop) ranges over its whole input in order, feeds every byte to step, stops with an error when step yields scanError, and accepts iff eof() does not yield scanError; eof has the shape err→error, endTop→end, step(' '), endTop→end, else error; Valid is checkValid == nil; Unmarshal/UnmarshalWithKeys return checkValid's error before touching the decoder",
-		Run: ruleDriver, Min: map[string]int{"codec": 6}})
+		Run: ruleDriver, Min: map[string]int{"codec": 8}})
 }
 
 type bset [4]uint64
@@ -466,6 +466,7 @@ func (e *scEval) run(fr *scFrame, b *ssa.BasicBlock, idx int, pred *ssa.BasicBlo
 
 // ---------- implementation machine (from extraction)
 type itrans struct {
+	ret    int64 // opcode returned (-1 unknown)
 	set    bset
 	dead   bool
 	step   string // "" = unchanged
@@ -496,7 +497,10 @@ func rows2table(rows []scRow) map[ikey][]itrans {
 			}
 			continue
 		}
-		tr := itrans{set: r.out.set, settop: -1, push: -1}
+		tr := itrans{set: r.out.set, settop: -1, push: -1, ret: -1}
+		if r.out.ret.k == kConst {
+			tr.ret = r.out.ret.n
+		}
 		for _, e := range r.out.effs {
 			switch e.op {
 			case "step":
@@ -874,6 +878,13 @@ func runProduct(t map[ikey][]itrans, startState string) (configs []pcfg, nBeneat
 			if (it.push >= 0) != (rt.push != 0) || it.pop != rt.pop {
 				report(p, c, "stack action differs")
 				continue
+			}
+			if scanOpcodes != nil {
+				want := refOpcode(p.rst, p.rtop, p.depth, byte(c), rt)
+				if it.ret != scanOpcodes[want] {
+					report(p, c, fmt.Sprintf("opcode differs: the scanner returns %d, the documented event is %s (%d) — Compact/Indent and the decoder follow these events", it.ret, want, scanOpcodes[want]))
+					continue
+				}
 			}
 			n := p
 			if it.step != "" {
@@ -1372,6 +1383,18 @@ func ruleScan(c *Ctx) {
 		}
 	}
 
+	// opcode constants of the analysed scanner
+	scanOpcodes = map[string]int64{}
+	for _, n := range []string{"scanContinue", "scanBeginLiteral", "scanBeginObject", "scanObjectKey", "scanObjectValue", "scanEndObject", "scanBeginArray", "scanArrayValue", "scanEndArray", "scanSkipSpace", "scanEnd", "scanError"} {
+		if nc := sp.Const(n); nc != nil {
+			if v, ok := constant.Int64Val(nc.Value.Value); ok {
+				scanOpcodes[n] = v
+				continue
+			}
+		}
+		scanOpcodes = nil
+		break
+	}
 	// product with the reference automaton
 	var table map[ikey][]itrans
 	tableErr := ""
@@ -1417,7 +1440,7 @@ func ruleScan(c *Ctx) {
 		if ms := byCfg[p.key()]; len(ms) > 0 {
 			l.add("R-SCAN", "codec", key, b.rel(states[p.ist].Pos()), Violated, fmt.Sprintf("%d disagreement(s) with RFC 8259, first: %s", len(ms), ms[0]), true)
 		} else {
-			l.add("R-SCAN", "codec", key, b.rel(states[p.ist].Pos()), Discharged, "scanner and RFC 8259 reference agree on all 256 bytes (reject / continue / push / pop) and on acceptance at end of input", true)
+			l.add("R-SCAN", "codec", key, b.rel(states[p.ist].Pos()), Discharged, "scanner and RFC 8259 reference agree on all 256 bytes (reject / continue / push / pop), on the opcode reported for each accepted byte, and on acceptance at end of input", true)
 		}
 	}
 	l.stat("R-SCAN").Extra["product_configurations"] = len(configs)
@@ -1626,6 +1649,85 @@ func ruleDriver(c *Ctx) {
 	}
 	if nDrivers == 0 {
 		l.add("R-DRIVER", "codec", "anchor drivers", "", Undecided, "no whole-input driver of the scanner found", false)
+	}
+	scanSkipSpace := konst("scanSkipSpace")
+	// compact drops exactly the bytes whose opcode is >= scanSkipSpace (whitespace outside strings, R-SCAN's opcode oracle)
+	if fn := fnOf(sp, "compact"); fn != nil {
+		key := "compact: a byte is dropped exactly when its opcode is >= scanSkipSpace"
+		bad := "no comparison of the step result with scanSkipSpace found"
+		for _, call := range stepCalls(fn) {
+			for _, r := range *call.Referrers() {
+				bo, ok := r.(*ssa.BinOp)
+				if !ok || bo.X != ssa.Value(call) {
+					continue
+				}
+				k, isK := intConst(bo.Y)
+				if !isK || bo.Op != token.GEQ {
+					continue
+				}
+				if k != scanSkipSpace {
+					bad = fmt.Sprintf("the drop test compares the opcode with %d, scanSkipSpace is %d", k, scanSkipSpace)
+					continue
+				}
+				// the drop (start = i+1) happens only under the true edge or in the escape substitutions
+				bad = ""
+				for _, r2 := range *bo.Referrers() {
+					iff, ok := r2.(*ssa.If)
+					if !ok {
+						continue
+					}
+					h := innermostLoopHeader(iff.Block())
+					if h == nil {
+						bad = "the drop test is not in the byte loop"
+						continue
+					}
+					// on the false edge the loop continues without touching start: the successor is the header itself
+					if iff.Block().Succs[1] != h {
+						bad = "a byte whose opcode is below scanSkipSpace is not simply kept (the false edge of the drop test does not go straight to the next byte)"
+					}
+				}
+			}
+		}
+		v, why := Discharged, "if step(...) >= scanSkipSpace { flush pending bytes; start = i+1 } — any other byte goes straight to the next iteration and stays in the pending run"
+		if bad != "" {
+			v, why = Violated, bad
+		}
+		l.add("R-DRIVER", "codec", key, b.rel(fn.Pos()), v, why, true)
+	}
+	if fn := fnOf(sp, "Indent"); fn != nil {
+		key := "Indent: exactly the bytes whose opcode is scanSkipSpace are skipped without being emitted"
+		bad := "no comparison of the step result with scanSkipSpace found"
+		for _, call := range stepCalls(fn) {
+			for _, r := range *call.Referrers() {
+				bo, ok := r.(*ssa.BinOp)
+				if !ok || bo.X != ssa.Value(call) || bo.Op != token.EQL {
+					continue
+				}
+				k, isK := intConst(bo.Y)
+				if !isK || k != scanSkipSpace {
+					continue
+				}
+				for _, r2 := range *bo.Referrers() {
+					if iff, ok := r2.(*ssa.If); ok {
+						h := innermostLoopHeader(iff.Block())
+						if h != nil && iff.Block().Succs[0] == h {
+							bad = ""
+						} else if h != nil {
+							// continue may go through an empty block
+							s0 := iff.Block().Succs[0]
+							if len(s0.Instrs) == 1 && len(s0.Succs) == 1 && s0.Succs[0] == h {
+								bad = ""
+							}
+						}
+					}
+				}
+			}
+		}
+		v, why := Discharged, "if step(...) == scanSkipSpace { continue }"
+		if bad != "" {
+			v, why = Violated, bad
+		}
+		l.add("R-DRIVER", "codec", key, b.rel(fn.Pos()), v, why, true)
 	}
 
 	// eof's shape
@@ -1864,4 +1966,47 @@ func scCmpSetTbl(tbl *[256]int64, op token.Token, k int64, byteLeft bool) bset {
 		}
 	}
 	return s
+}
+
+
+// scanOpcodes: name -> value of the scanner's opcode constants, read from the
+// analysed package by the rule before the product runs (nil = not checked).
+var scanOpcodes map[string]int64
+
+// refOpcode: the event the scanner documents for reading byte c in reference
+// state s (top = enclosing container, depth = nesting class), given the
+// reference transition t. Written from the comments on the scan* constants,
+// not from the state functions.
+func refOpcode(s rstate, top byte, depth int, c byte, t rtrans) string {
+	switch {
+	case t.push == 'O':
+		return "scanBeginObject"
+	case t.push == 'A':
+		return "scanBeginArray"
+	case t.pop && c == '}':
+		return "scanEndObject"
+	case t.pop && c == ']':
+		return "scanEndArray"
+	}
+	structural := s == rV || s == rVE || s == rKE || s == rK || s == rColon || s == rAfter
+	endsNumber := s == nZero || s == nInt || s == nFrac || s == nExp
+	if isWS(c) && (structural || endsNumber) {
+		if depth == 0 && (s == rAfter || endsNumber) {
+			return "scanEnd" // the top-level value is complete
+		}
+		return "scanSkipSpace"
+	}
+	if (s == rV || s == rVE || s == rKE || s == rK) && t.next != rDead {
+		return "scanBeginLiteral" // start of a string, number or literal name
+	}
+	if s == rColon && c == ':' {
+		return "scanObjectKey"
+	}
+	if (s == rAfter || endsNumber) && c == ',' {
+		if top == 'O' {
+			return "scanObjectValue"
+		}
+		return "scanArrayValue"
+	}
+	return "scanContinue"
 }
